@@ -377,8 +377,8 @@ def check_property(pid, tier, seed):
         if r["violated"] and not r["job"].get("expect_violation"):
             # a counterexample in the model alone is not a verdict about the code (DESIGN section 5):
             # report as a tool-level problem of the model unless replayed
-            fails.append(dict(property=pid, formula="Model:" + str(r["violated"]), op=r["cfg"], p=-1, i=-1,
-                              witness=r["trace"][:1500] if r["trace"] else None, source="model", gen=r["cfg"], profile="-", driver="tlc"))
+            tool_errors.append("TLC %s: the model violates its own invariant %s (a defect of the specification, not a verdict about the code): %s"
+                               % (r["cfg"], r["violated"], (r["trace"] or "")[:600]))
     # ---- verdict
     viol, knownhits = {}, {}
     for f in fails:
